@@ -407,7 +407,11 @@ func emit[T any](n *nodeRT, ctl *RunCtl, chunks []T) *schema.StreamReader[T] {
 }
 
 func (n *nodeRT) emitV(ctl *RunCtl, out V) *schema.StreamReader[V] {
-	return emit(n, ctl, ChunkV(out, n.chunkRand(out)))
+	chunks := ChunkV(out, n.chunkRand(out))
+	for i := 0; i < n.spec.Pad; i++ {
+		chunks = append(chunks, V{})
+	}
+	return emit(n, ctl, chunks)
 }
 
 func (n *nodeRT) emitS(ctl *RunCtl, out string) *schema.StreamReader[string] {
@@ -549,6 +553,9 @@ func verifLazyTransform(ctx context.Context, n *nodeRT, ctl *RunCtl, e *Exec, p 
 		return
 	}
 	chunks := ChunkV(out.(V), n.chunkRand(out))
+	for i := 0; i < n.spec.Pad; i++ {
+		chunks = append(chunks, V{})
+	}
 	ctl.Log.updProducer(func() { p.Total = len(chunks) })
 	for i, c := range chunks {
 		if ctl.OnChunk != nil {
